@@ -28,6 +28,8 @@ func TestC19(t *testing.T) {
 
 	runTables(c)
 	h.Run(c, "range", c.N(15000, 60000), genRange, rangeOracle)
+	c.Rule("range_history: 2-5 calls of range with bounds <= 70 (one- and three-argument forms); after each call its result is read element by element and then modified in place (element store, in-place append to a re-slice, store through a function parameter, store through a tail slice): every later call must still yield the progression; non-trivial = >= 2 calls and >= 1 modification")
+	h.Run(c, "range_history", c.N(6000, 30000), genRangeHist, rangeHistOracle)
 	h.Run(c, "keys", c.N(12000, 50000), genKeys, keysOracle)
 	h.Run(c, "len", c.N(12000, 50000), genLen, lenOracle)
 	h.Run(c, "typeof", c.N(12000, 50000), genType, typeOracle)
